@@ -384,9 +384,19 @@ func checkC17(c *checkCtx) {
 		fnReturning := 0 // returned from the function's point of view but possibly not yet counted
 		var start time.Duration = -1
 		lastAttemptStart := map[int]time.Duration{}
+		scheduledAt := map[[2]int]time.Duration{} // (task, policy) -> instant of the last OnRetryScheduled
 		for _, e := range v.Events {
-			if e.Kind == EvFnEnd {
-				defer func() {}()
+			if e.Kind == EvListener && e.L == LRetryScheduled {
+				scheduledAt[[2]int{e.Task, e.Pos}] = e.T
+			}
+			if e.Kind == EvListener && e.L == LRetry && e.Flags&FHasExec != 0 {
+				// the retry being announced is the current attempt: it began after it was scheduled and not in the future
+				if t0, ok := scheduledAt[[2]int{e.Task, e.Pos}]; ok {
+					c.cov("c17.onretry_attempt_start_checked")
+					if e.AttemptStart < t0 || e.AttemptStart > e.T {
+						c.fail("C17.time", "onretry-attempt-start", fmt.Sprintf("exec %d: OnRetry (Attempts=%d) reports AttemptStartTime %v, but that retry was scheduled at %v and announced at %v", v.ID, e.Attempts, e.AttemptStart, t0, e.T))
+					}
+				}
 			}
 			if e.Flags&FHasExec != 0 {
 				c.cov("c17.observations")
